@@ -52,8 +52,40 @@ def file_sha(p) -> str:
     return hashlib.sha256(open(p, 'rb').read()).hexdigest()[:12]
 
 
+def other_views(case, rec):
+    """the same entities seen by differently configured Wordnets (other expand lexicons,
+    default mode): asked before the main battery in one process / pass and after it in the
+    other, so that anything remembered per entity across Wordnets shows as a difference"""
+    scope = case['scope']
+    corpus = case.get('corpus', [])
+    alt = '*' if case.get('expand', '') == '' else ''
+    for name, mk in (('alt', lambda: wn.Wordnet(scope, expand=alt)), ('dflt', lambda: wn.Wordnet())):
+        try:
+            wx = mk()
+        except wn.Error:
+            continue
+        rec(f'{name}.ic', lambda wx=wx: wn.ic.compute(corpus, wx, distribute_weight=True, smoothing=1.0))
+        for pos in ('n', 'v', 'a'):
+            rec(f'{name}.taxonomy_depth|{pos}', lambda wx=wx, pos=pos: wn.taxonomy.taxonomy_depth(wx, pos))
+        for y in wx.synsets():
+            k = f'{y.lexicon().specifier()}/{y.id}'
+            rec(f'{name}.nav|{k}', lambda y=y: [y.hypernyms(), y.hyponyms(), y.relations(), y.hypernym_paths(),
+                                                y.max_depth(), y.min_depth(), y.words(), y.senses()])
+        for q in case.get('queries', [])[:2]:
+            rec(f'{name}.search|{q}', lambda wx=wx, q=q: [wx.words(q), wx.senses(q), wx.synsets(q)])
+
+
 def battery(case, rec):
     """calls rec(key, thunk) for every call of the battery"""
+    flip = (int(os.environ.get('PYTHONHASHSEED') or 0) + case.get('_pass', 0)) % 2
+    if flip:
+        other_views(case, rec)
+    main_battery(case, rec)
+    if not flip:
+        other_views(case, rec)
+
+
+def main_battery(case, rec):
     d = base_dir()
     scope = case['scope']
     w = wn.Wordnet(scope, expand=case.get('expand', ''))
